@@ -205,8 +205,9 @@ func genExts(names []string) *rapid.Generator[[]string] {
 		for i := 0; i < n; i++ {
 			if len(names) > 0 && rapid.IntRange(0, 2).Draw(t, "fromname") == 0 {
 				nm := names[rapid.IntRange(0, len(names)-1).Draw(t, "nameidx")]
-				cut := rapid.IntRange(0, len(nm)).Draw(t, "cut")
-				out = append(out, nm[cut:])
+				rs := []rune(nm)
+				cut := rapid.IntRange(0, len(rs)).Draw(t, "cut")
+				out = append(out, string(rs[cut:]))
 			} else {
 				out = append(out, rapid.SampledFrom(extPool).Draw(t, "ext"))
 			}
